@@ -585,7 +585,11 @@ impl Connection {
         let result;
         {
             let online = self.state.assert_online();
-            if buffer.len() > MAX_PAYLOAD {
+            // Refuse what can never be sent: a chunk whose size the chunk
+            // header can't encode or that doesn't fit into an empty packet.
+            if buffer.len() >> protocol::CHUNK_SIZE_BITS != 0
+                || protocol::chunk_header_size(vital) + buffer.len() > MAX_PAYLOAD
+            {
                 return Err(Error::TooLongData);
             }
             if !online.packet.can_fit_chunk(buffer, vital) {
